@@ -275,6 +275,10 @@ func (g *Syn) expr(d int) *Node {
 				}
 			default:
 				k = Id(g.prop())
+				if !g.O.Plain && g.R.IntN(12) == 0 {
+					// property names that are spelled like keyword literals are names
+					k = Id([]string{"true", "false", "null"}[g.R.IntN(3)])
+				}
 			}
 			n.Kids = append(n.Kids, k, g.Expr(d-1))
 		}
